@@ -236,6 +236,31 @@ func TestVerif_C17(t *testing.T) {
 				continue
 			}
 		}
+		// hostile candidate on the finalization path: one output listed twice and its amount claimed twice
+		if c.Kind == "transfer" && len(c.Ins) > 0 && rng.Intn(8) == 0 {
+			dup := c.Ins[rng.Intn(len(c.Ins))]
+			ins := append(append([]*verifgen.Out{}, c.Ins...), dup)
+			total := new(big.Int)
+			for _, o := range ins {
+				total.Add(total, verifgen.UnitsOf(o.Amount))
+			}
+			spec := d.w.Spec(verifgen.Units(total), 2)
+			raw := verifgen.BuildTx(c.Ins[0].Asset, ins, []verifgen.OutSpec{spec}, []byte("double-input"), nil)
+			bad := &verifSDTx{Kind: "transfer", Tx: verifgen.SignMap(raw, ins, verifgen.FirstN(ins)), Specs: []verifgen.OutSpec{spec}}
+			admit := sim.Admit
+			if rng.Intn(2) == 0 {
+				admit = sim.AdmitFinal
+			}
+			if err := admit(bad.Tx, ts); err != nil {
+				r.Count("rejected_double-input_transfer", 1)
+			} else {
+				r.Count("ACCEPTED_double-input_transfer_(C01_territory)", 1)
+				flush()
+				batch = []*verifSDTx{bad}
+				flush()
+				continue
+			}
+		}
 		var verr error
 		if c.Kind == "transfer" && rng.Intn(7) == 0 {
 			verr = sim.AdmitFinal(c.Tx, ts)
